@@ -21,7 +21,7 @@ from . import common, mapfam
 
 ID = 'C20'
 LEVEL = 'exploration'
-QUOTA = {'quick': 1100, 'thorough': 12000}
+QUOTA = {'quick': 2200, 'thorough': 12000}
 BUDGET = {'quick': 100, 'thorough': 900}
 CASES = ['success', 'success', 'worker', 'worker', 'diskfull', 'parent_io', 'parent_io', 'query_missing',
          'query_truncated', 'query_not_hdf5', 'query_no_x', 'stats_no_sum', 'stats_no_n_cells', 'stats_no_tree',
